@@ -89,7 +89,8 @@ Definition plans_of (cf : config) (e : env) : list (list call) :=
 Definition tie_free_t (cf : config) (e : env) (l : lats) (m : timed) : bool :=
   let e1 := apply_cuts e (t_cuts m) (e_deadline e - t_t0 m) in
   negb (steps_tie e l)
-  && tie_free (e_deadline e1) (plans_of cf e1)
+  && (* relay goroutines: only where the model has relays asked at all *)
+     (is_nil (concat (o_unblind (t_res m))) || tie_free (e_deadline e1) (plans_of cf e1))
   && match o_submit (t_res m) with
      | Some (s, _) => negb (step_tie (e_deadline e) (s + t_t0 m) (l_submit l))
      | None => true
